@@ -74,7 +74,7 @@ func sectionOp(sec string) {
 	}
 }
 
-func gate(parked, probe string) (parkedReached, arrived bool) {
+func gate(parked, probe string) (parkedReached, arrived, stuck bool) {
 	release := make(chan struct{})
 	reached := make(chan struct{}, 1)
 	arrive := make(chan struct{}, 1)
@@ -98,7 +98,7 @@ func gate(parked, probe string) (parkedReached, arrived bool) {
 		parkedReached = true
 	case <-time.After(2 * time.Second):
 		close(release)
-		return false, false
+		return false, false, false
 	}
 	probeStarted.Store(true)
 	go func() { sectionOp(probe); done <- struct{}{} }()
@@ -108,8 +108,14 @@ func gate(parked, probe string) (parkedReached, arrived bool) {
 	case <-time.After(250 * time.Millisecond):
 	}
 	close(release)
-	<-done
-	<-done
+	for i := 0; i < 2; i++ {
+		select {
+		case <-done:
+		case <-time.After(10 * time.Second):
+			stuck = true // the two operations never finished: deadlock
+			return
+		}
+	}
 	return
 }
 
@@ -440,20 +446,25 @@ func tzHammerChild(args []string) int {
 func driveC12(c *driverCtx) error {
 	// (1) gates
 	secs := []string{"registry.w", "registry.r", "schema.w", "schema.r", "tz.w"}
+	deadlocked := false
 	for _, parked := range secs {
 		for _, probe := range secs {
 			if strings.Split(parked, ".")[0] != strings.Split(probe, ".")[0] {
 				continue
 			}
-			for rep := 0; rep < c.pick(2, 6); rep++ {
-				reached, arrived := gate(parked, probe)
+			for rep := 0; rep < c.pick(2, 6) && !deadlocked; rep++ {
+				reached, arrived, stuck := gate(parked, probe)
 				c.rec.NewCase()
 				c.rec.Emit(fmt.Sprintf("C12|gate|%s|%s", parked, probe), map[string]any{"op": "gate", "parked": parked, "probe": probe, "reached": reached, "arrived": arrived})
+				if stuck {
+					c.rec.Emit(fmt.Sprintf("C12|gate|%s|%s", parked, probe), map[string]any{"op": "progress", "what": "an operation parked in " + parked + " together with one sent to " + probe, "completed": false})
+					deadlocked = true // the locks of this process are stuck for good: no further in-process experiments
+				}
 			}
 		}
 	}
 	// (1a) a registration arriving in the middle of a codec build
-	for rep := 0; rep < c.pick(2, 6); rep++ {
+	for rep := 0; rep < c.pick(2, 6) && !deadlocked; rep++ {
 		ok := buildVsRegister()
 		c.rec.NewCase()
 		c.rec.Emit("C12|build-vs-register", map[string]any{"op": "progress", "what": "a codec build and a Register call started during it", "completed": ok})
